@@ -50,6 +50,16 @@ func inject(mods []*sg.Mod, d string, pick func(n int) int) {
 			}
 		}
 	}
+	// the second definition of a two-member identity, feature or grouping cycle may live in another file of the same
+	// module (its submodule, or the module a submodule belongs to).  Not so for typedefs: a submodule does not see the
+	// typedefs of its module (YANG 1.0 scoping, which the compiler follows), so such a pair is no cycle.
+	second := m
+	for _, x := range mods {
+		if (m.BelongsTo != "" && x == host || m.BelongsTo == "" && x.BelongsTo == m.Name) && pick(2) == 1 {
+			second = x
+			break
+		}
+	}
 	// a link of a cycle inside one module may be written with the module's own prefix
 	ownPfx := pick(3) == 1
 	str := func(s string) *sg.TypeSpec {
@@ -91,8 +101,8 @@ func inject(mods []*sg.Mod, d string, pick func(n int) int) {
 			&sg.Typedef{Name: "cyc-b", Type: str("cyc-a")})
 		host.Nodes[0].Kids = append(host.Nodes[0].Kids, &sg.Node{Kind: "leaf", Name: "cyc-leaf", Type: str("cyc-b")})
 	case "grouping-cycle-direct":
-		m.Groupings = append(m.Groupings, &sg.Grouping{Name: "cyc-ga", Kids: []*sg.Node{{Kind: "uses", Name: ref("cyc-gb")}}},
-			&sg.Grouping{Name: "cyc-gb", Kids: []*sg.Node{{Kind: "uses", Name: ref("cyc-ga")}}})
+		m.Groupings = append(m.Groupings, &sg.Grouping{Name: "cyc-ga", Kids: []*sg.Node{{Kind: "uses", Name: ref("cyc-gb")}}})
+		second.Groupings = append(second.Groupings, &sg.Grouping{Name: "cyc-gb", Kids: []*sg.Node{{Kind: "uses", Name: ref("cyc-ga")}}})
 		host.Nodes[0].Kids = append(host.Nodes[0].Kids, &sg.Node{Kind: "uses", Name: ref("cyc-ga")})
 	case "grouping-cycle-nested":
 		m.Groupings = append(m.Groupings, &sg.Grouping{Name: "cyc-ga", Kids: []*sg.Node{{Kind: "container", Name: "cyc-c", Kids: []*sg.Node{{Kind: "uses", Name: ref("cyc-ga")}}}}})
@@ -126,11 +136,13 @@ func inject(mods []*sg.Mod, d string, pick func(n int) int) {
 		}
 		host.Nodes[0].Kids = append(host.Nodes[0].Kids, &sg.Node{Kind: "uses", Name: ref("cyc-g3")})
 	case "identity-cycle":
-		m.Identities = append(m.Identities, &sg.Identity{Name: "cyc-ia", Base: ref("cyc-ib")}, &sg.Identity{Name: "cyc-ib", Base: ref("cyc-ia")})
+		m.Identities = append(m.Identities, &sg.Identity{Name: "cyc-ia", Base: ref("cyc-ib")})
+		second.Identities = append(second.Identities, &sg.Identity{Name: "cyc-ib", Base: ref("cyc-ia")})
 	case "identity-self":
 		m.Identities = append(m.Identities, &sg.Identity{Name: "cyc-ia", Base: ref("cyc-ia")})
 	case "feature-cycle":
-		m.Features = append(m.Features, &sg.Feature{Name: "cyc-fa", IfFeatures: []string{ref("cyc-fb")}}, &sg.Feature{Name: "cyc-fb", IfFeatures: []string{ref("cyc-fa")}})
+		m.Features = append(m.Features, &sg.Feature{Name: "cyc-fa", IfFeatures: []string{ref("cyc-fb")}})
+		second.Features = append(second.Features, &sg.Feature{Name: "cyc-fb", IfFeatures: []string{ref("cyc-fa")}})
 	case "feature-cycle-second":
 		// the cycle closes through the SECOND if-feature of a feature; the first one names an ordinary feature that
 		// may be disabled in the configuration the set is compiled with
